@@ -156,7 +156,12 @@ def shard_main(pid, tier, seed, i, n):
                 continue
             case = dec(json.loads(json.dumps(enc(case))))   # what a replay would see
             acc.evaluations += 1
-            mod.run_case(case, acc)
+            try:
+                mod.run_case(case, acc)
+            except env.SelfDeadlock as e:
+                # a driver other than harness.drive met it: the call it was making would never have returned
+                acc.violation('would-hang:self-deadlock-on-lock', '%s: a thread blocks for ever on a lock it already holds' % pid.upper(),
+                              case, dict(stack=list(env.DEADLOCKS[-1]) if env.DEADLOCKS else None))
         acc.counters['truncated_shards'] = 1 if truncated else 0
         if hasattr(mod, 'finish'):
             mod.finish(acc, tier, i, n, truncated)
